@@ -178,6 +178,8 @@ class Gen:
         if sty not in ("ppl_%s_t" % D, "ppl_const_%s_t" % D):
             return False
         mutates = sty == "ppl_%s_t" % D
+        if suffix == "simplify_using_context_assign" and D.startswith("Octagonal_Shape"):
+            return False          # the C++ operation itself reaches PPL_UNREACHABLE on small inputs (unchanged tree): outside C20
         if suffix.startswith("BHZ03_") or suffix.startswith("BGP99_"):
             return False          # certificate-parameterised powerset widenings: no one-to-one C++ method name
         rest = params[1:]
